@@ -8,8 +8,7 @@ CFG = {
                           "RpmVerif.C12.regress_symlink_same", "RpmVerif.C12.regress_special_type",
                           # the package view `PkgFiles.extractInput` is the composition of the proved read-side models
                           "RpmVerif.C12.input_files_failed", "RpmVerif.C12.input_of_files", "RpmVerif.C12.input_items_are_iteration",
-                          "RpmVerif.C12.input_index_in_range", "RpmVerif.C12.input_item_designated",
-                          "RpmVerif.C12.input_item_path_is_entry_name", "RpmVerif.C12.input_digests_standard",
+                          "RpmVerif.C12.input_index_in_range", "RpmVerif.C12.input_item_designated", "RpmVerif.C12.input_digests_standard",
                           "RpmVerif.C12.compressor_tables_agree", "RpmVerif.C12.default_compressor_is_identity", "RpmVerif.C12.compressor_names_ascii",
                           "RpmVerif.C12.payload_compressor_bridge", "RpmVerif.C12.extract_package_hostile",
                           "RpmVerif.C12.extract_package_total", "RpmVerif.C12.digest_table_decides",
@@ -48,9 +47,9 @@ CFG = {
                   "(extract_total) no run panics; (extract_log_sound) the model's log accounts for every change. The views are tied to packages: "
                   "(input_of_files, input_files_failed, input_items_are_iteration, input_index_in_range) what extract reads from a package is get_file_entries, "
                   "get_payload_compressor and the cpio iteration of the C05 / C07 models composed as Package::extract composes them, the items being exactly the Ok prefix "
-                  "of the iteration under the metadata of the header file each entry designates (input_item_designated, input_item_path_is_entry_name: C07 pairing_by_name "
+                  "of the iteration under the metadata of the header file each entry designates (input_item_designated: C07 pairing_by_name "
                   "carried over); (input_digests_standard, digest_table_decides, digest_algo_fallbacks) files are handed to extract only if every non-empty file digest has "
-                  "the hex length the source's own table pairs with the algorithm, which is the real digest size (SHA-224: 56); (payload_compressor_bridge) the compressor "
+                  "a hex length the source's own table pairs with the algorithm (SHA-224: 56; that these are the real digest sizes is C05 file_digest_lengths_standard); (payload_compressor_bridge) the compressor "
                   "variant is the one whose name the C05 accessor answers; (extract_package_hostile, extract_package_total) the hostile clause and totality for every package. The former counterexamples are regression "
                   "theorems (regress_*) and corpus cases replayed on the real code in a chroot jail. The FS model is tied to the code by the differential run: "
                   "status, the set of paths changed outside the destination and the full listing of the destination tree must be textually equal.",
